@@ -322,4 +322,178 @@ theorem div_le_one (f : Fmt) (hp : 1 ≤ f.p) (hemin : f.emin ≤ 0) (hetop : 1 
     h1p hemin (by rw [hb1]; omega) htarget
   simpa [InUnit] using this
 
+/-- **half-ulp error of one rounding**: a finite result `n · 2^q` of rounding `a · 2^e` is either the
+input itself (`q = e`, `n = a`) or has a coarser exponent `q = e + s` and `|n · 2^s − a| ≤ 2^s / 2`;
+in the latter case the significand is normalised (`n ≥ 2^(p−1)`) unless `q` is the subnormal
+exponent `emin`. -/
+theorem roundNE_half_ulp (f : Fmt) (hp : 1 ≤ f.p) (neg : Bool) (a : Nat) (e : Int) (n : Nat) (q : Int)
+    (ha : a ≠ 0) (h : roundNE f neg a e = .fin neg n q) :
+    e + (bitLen a : Int) - (f.p : Int) ≤ q ∧
+    ((q = e ∧ n = a) ∨
+    (e < q ∧ 2 * n * 2 ^ (q - e).toNat ≤ 2 * a + 2 ^ (q - e).toNat ∧
+      2 * a ≤ 2 * n * 2 ^ (q - e).toNat + 2 ^ (q - e).toNat ∧
+      (2 ^ (f.p - 1) ≤ n ∨ q = f.emin))) := by
+  unfold roundNE at h
+  simp only [ha, if_false] at h
+  have hL1 := pow_bitLen_le ha
+  have hL2 := lt_pow_bitLen a
+  have hLpos := bitLen_pos ha
+  generalize hL : bitLen a = L at *
+  generalize hq : (if e + (L : Int) - (f.p : Int) < f.emin then f.emin else e + (L : Int) - (f.p : Int)) = q0 at h
+  have hq0ge : e + (L : Int) - (f.p : Int) ≤ q0 := by rw [← hq]; split <;> omega
+  by_cases hqe : q0 ≤ e
+  · simp only [hqe, if_true] at h
+    split at h
+    · cases h
+    · cases h; exact ⟨by omega, Or.inl ⟨rfl, rfl⟩⟩
+  · simp only [hqe, if_false] at h
+    have hqq : q = q0 := by
+      repeat' split at h
+      all_goals first | (cases h; done) | (cases h; rfl)
+    refine ⟨by omega, Or.inr ?_⟩
+    generalize hs : (q0 - e).toNat = s at h
+    have hs1 : 1 ≤ s := by omega
+    have hdm := Nat.div_add_mod a (2 ^ s)
+    have hmod := Nat.mod_lt a (two_pow_pos s)
+    generalize hn0 : a / 2 ^ s = n0 at *
+    generalize hr0 : a % 2 ^ s = r0 at *
+    have hnorm : 2 ^ (f.p - 1) ≤ n0 ∨ q0 = f.emin := by
+      by_cases hsub : e + (L : Int) - (f.p : Int) < f.emin
+      · right; rw [← hq]; simp [hsub]
+      · left
+        have hq0 : q0 = e + (L : Int) - (f.p : Int) := by rw [← hq]; simp [hsub]
+        have hsL : s + f.p = L := by omega
+        rw [← hn0, Nat.le_div_iff_mul_le (two_pow_pos s), ← Nat.pow_add]
+        have : f.p - 1 + s = L - 1 := by omega
+        rw [this]; exact hL1
+    generalize hS : 2 ^ s = S at *
+    by_cases hup : 2 * r0 > S ∨ (2 * r0 = S ∧ n0 % 2 = 1)
+    · simp only [hup, if_true] at h
+      split at h
+      · cases h
+      · cases h
+        rw [hs, hS]
+        refine ⟨by omega, ?_, ?_, ?_⟩
+        · have : 2 * (n0 + 1) * S = 2 * (S * n0) + 2 * S := by
+            rw [Nat.mul_comm S n0, Nat.mul_assoc, Nat.add_mul, Nat.mul_add]; omega
+          rcases hup with h1 | h1 <;> omega
+        · have : 2 * (n0 + 1) * S = 2 * (S * n0) + 2 * S := by
+            rw [Nat.mul_comm S n0, Nat.mul_assoc, Nat.add_mul, Nat.mul_add]; omega
+          omega
+        · rcases hnorm with h1 | h1
+          · left; omega
+          · right; exact h1
+    · simp only [hup, if_false] at h
+      split at h
+      · cases h
+      · cases h
+        rw [hs, hS]
+        have : 2 * n * S = 2 * (S * n) := by rw [Nat.mul_comm S n, Nat.mul_assoc]
+        refine ⟨by omega, by omega, ?_, hnorm⟩
+        have hnot : ¬ (2 * r0 > S) := fun h1 => hup (Or.inl h1)
+        omega
+
+/-- **half-ulp error of a division**: a finite quotient `n · 2^q` of `x·2^ex / b·2^eb` (`x, b ≠ 0`)
+is within `2^q / 2` of the exact rational quotient.  With `E = ex − eb − k − 1`
+(`k = p + 2 + bitLen b` guard bits) the exact quotient is `(2·x·2^k / b) · 2^E`; the statement is
+`|n · 2^(q−E) · b − 2·x·2^k| ≤ 2^(q−E−1) · b`, and the significand is normalised unless
+`q = emin`. -/
+theorem div_half_ulp (f : Fmt) (hp : 1 ≤ f.p) (x : Nat) (ex : Int) (b : Nat) (eb : Int) (n : Nat) (q : Int)
+    (hx : x ≠ 0) (hb : b ≠ 0)
+    (h : div f (.fin false x ex) (.fin false b eb) = .fin false n q) :
+    let k := f.p + 2 + bitLen b
+    let E := ex - eb - (k : Int) - 1
+    E + 2 ≤ q ∧
+    n * 2 ^ (q - E).toNat * b ≤ 2 * x * 2 ^ k + 2 ^ (q - E - 1).toNat * b ∧
+    2 * x * 2 ^ k ≤ n * 2 ^ (q - E).toNat * b + 2 ^ (q - E - 1).toNat * b ∧
+    (2 ^ (f.p - 1) ≤ n ∨ q = f.emin) := by
+  intro k E
+  unfold div at h
+  simp only [hb, hx, if_false] at h
+  have hbpos : 0 < b := Nat.pos_of_ne_zero hb
+  have hdm := Nat.div_add_mod (x * 2 ^ k) b
+  have hmod := Nat.mod_lt (x * 2 ^ k) hbpos
+  change roundNE f false (2 * (x * 2 ^ k / b) + if x * 2 ^ k % b = 0 then 0 else 1) E = .fin false n q at h
+  generalize hq' : x * 2 ^ k / b = q' at *
+  generalize hrem : x * 2 ^ k % b = rem at *
+  -- q' ≥ 2^(p+2)
+  have hbk : 2 ^ (f.p + 2) * b < 2 ^ k := by
+    have h1 := lt_pow_bitLen b
+    have : 2 ^ k = 2 ^ (f.p + 2) * 2 ^ bitLen b := by rw [← Nat.pow_add]
+    rw [this]
+    exact Nat.mul_lt_mul_of_pos_left h1 (two_pow_pos _)
+  have hq1 : 2 ^ (f.p + 2) ≤ q' := by
+    rw [← hq']
+    apply (Nat.le_div_iff_mul_le hbpos).mpr
+    have : 2 ^ k ≤ x * 2 ^ k := Nat.le_mul_of_pos_left _ (Nat.pos_of_ne_zero hx)
+    omega
+  generalize hQt : (2 * q' + if rem = 0 then 0 else 1) = Qt at h
+  have hQt0 : Qt ≠ 0 := by
+    have := two_pow_pos (f.p + 2); rw [← hQt]; omega
+  have hQtbig : 2 ^ (f.p + 3) ≤ Qt := by
+    have : 2 ^ (f.p + 3) = 2 * 2 ^ (f.p + 2) := by rw [Nat.pow_succ]; omega
+    rw [← hQt]; omega
+  have hLQ : f.p + 4 ≤ bitLen Qt := by
+    have h1 := lt_pow_bitLen Qt
+    have h2 : 2 ^ (f.p + 3) < 2 ^ bitLen Qt := Nat.lt_of_le_of_lt hQtbig h1
+    have := (Nat.pow_lt_pow_iff_right (by decide : 1 < 2)).mp h2
+    omega
+  obtain ⟨hexp, hcase⟩ := roundNE_half_ulp f hp false Qt E n q hQt0 h
+  have hqE : E + 4 ≤ q := by omega
+  rcases hcase with ⟨h1, _⟩ | ⟨_, hlo, hhi, hnorm⟩
+  · omega
+  refine ⟨by omega, ?_, ?_, hnorm⟩
+  all_goals
+    generalize hs : (q - E).toNat = s at *
+    have hs4 : 4 ≤ s := by omega
+    have hs1 : (q - E - 1).toNat = s - 1 := by omega
+    rw [hs1]
+    have hS : 2 ^ s = 4 * 2 ^ (s - 2) := by
+      have : s = (s - 2) + 2 := by omega
+      rw [this, Nat.pow_add]; simp; omega
+    have hS2 : 2 ^ (s - 1) = 2 * 2 ^ (s - 2) := by
+      have : s - 1 = (s - 2) + 1 := by omega
+      rw [this, Nat.pow_succ]; omega
+    rw [hS] at hlo hhi ⊢
+    rw [hS2]
+    generalize 2 ^ (s - 2) = S4 at *
+    generalize hN : n * S4 = N at *
+    have e1 : 2 * n * (4 * S4) = 8 * N := by rw [← hN, Nat.mul_assoc, Nat.mul_left_comm n 4 S4]; omega
+    have e2 : n * (4 * S4) * b = 4 * (N * b) := by rw [← hN, Nat.mul_left_comm n 4 S4, Nat.mul_assoc]
+    rw [e1] at hlo hhi
+    rw [e2]
+    have e3 : 2 * x * 2 ^ k = 2 * (b * q' + rem) := by rw [hdm, Nat.mul_assoc]
+    rw [e3]
+  · -- upper side of the result: 4 N b ≤ 2 (b q' + rem) + 2 S4 b
+    have key : 2 * N ≤ q' + S4 := by
+      by_cases hr : rem = 0
+      · simp only [hr, if_true] at hQt; omega
+      · simp only [hr, if_false] at hQt; omega
+    have := Nat.mul_le_mul_right b key
+    rw [Nat.add_mul, Nat.mul_assoc] at this
+    rw [Nat.mul_comm b q', Nat.mul_assoc 2 S4 b]
+    generalize N * b = P1 at *
+    generalize q' * b = P2 at *
+    generalize S4 * b = P3 at *
+    omega
+  · by_cases hr : rem = 0
+    · simp only [hr, if_true] at hQt
+      have key : q' ≤ 2 * N + S4 := by omega
+      have := Nat.mul_le_mul_right b key
+      rw [Nat.add_mul, Nat.mul_assoc] at this
+      rw [Nat.mul_comm b q', Nat.mul_assoc 2 S4 b, hr]
+      generalize N * b = P1 at *
+      generalize q' * b = P2 at *
+      generalize S4 * b = P3 at *
+      omega
+    · simp only [hr, if_false] at hQt
+      have key : q' + 1 ≤ 2 * N + S4 := by omega
+      have := Nat.mul_le_mul_right b key
+      rw [Nat.add_mul, Nat.add_mul, Nat.mul_assoc, Nat.one_mul] at this
+      rw [Nat.mul_comm b q', Nat.mul_assoc 2 S4 b]
+      generalize N * b = P1 at *
+      generalize q' * b = P2 at *
+      generalize S4 * b = P3 at *
+      omega
+
 end FontVerif.Ieee
